@@ -242,3 +242,51 @@ func HarnessC16HandlerStream() {
 }
 
 var _ http.Header
+
+// HarnessC16SharedSlices: the interceptor groups are windows of ONE slice
+// (WithInterceptors(list[i:j]...)) and the same option values configure two
+// handlers and two clients one after the other; the options must not write
+// into the caller's slice, and every construction must see the same chain.
+//
+//verif:harness property=C16 stubs=json,wire
+func HarnessC16SharedSlices() {
+	n := bound("interceptors", 4, 5)
+	list := make([]Interceptor, n)
+	var want []int
+	for i := 0; i < n; i++ {
+		list[i] = &c16Interceptor{id: i + 1}
+		want = append(want, i+1)
+	}
+	// symbolic cut points
+	var opts []Option
+	start := 0
+	for i := 1; i <= n; i++ {
+		if i == n || nondetBool("cut") {
+			opts = append(opts, WithInterceptors(list[start:i]...))
+			start = i
+		}
+	}
+	for round := 0; round < 2; round++ {
+		var hopts []HandlerOption
+		var copts []ClientOption
+		for _, o := range opts {
+			hopts = append(hopts, o)
+			copts = append(copts, o)
+		}
+		c16Log = nil
+		handler := NewUnaryHandler("/pkg.Svc/Method", c16EchoUnary(), stackHandlerOptions(hopts...)...)
+		plain := NewClient[[]byte, []byte](&stackTransport{handler: handler}, stackURL, stackClientOptions(0)...)
+		in := []byte{7}
+		_, err := plain.CallUnary(context.Background(), NewRequest(&in))
+		check(err == nil && intsEq(c16Log, c16Expect(want, 1)), "a handler built from shared option values nests the interceptors in declaration order")
+		c16Log = nil
+		bare := NewUnaryHandler("/pkg.Svc/Method", c16EchoUnary(), stackHandlerOptions()...)
+		client := NewClient[[]byte, []byte](&stackTransport{handler: bare}, stackURL, stackClientOptions(0, copts...)...)
+		_, err = client.CallUnary(context.Background(), NewRequest(&in))
+		check(err == nil && intsEq(c16Log, c16Expect(want, 1)), "a client built from shared option values nests the interceptors in declaration order")
+	}
+	for i := 0; i < n; i++ {
+		ci, ok := list[i].(*c16Interceptor)
+		check(ok && ci.id == i+1, "options never modify the caller's interceptor slice")
+	}
+}
